@@ -179,10 +179,97 @@ pub fn panic_site(p: &str) -> String {
     file.rsplit("zeep-lib/").next().unwrap_or(file).to_string()
 }
 
-pub fn corpus() -> Vec<(String, FileSet)> {
+/// Text for documentation / enumeration values: lines of varied length with multi-byte
+/// characters at arbitrary byte offsets (error paths that slice or measure the text they
+/// were writing are only reached with such content).
+fn arb_line() -> impl Strategy<Value = String> {
+    prop_oneof![
+        3 => "[a-zA-Z ,.]{0,30}[°éß😀→][a-zA-Z ]{0,60}",
+        3 => "[a-zA-Z0-9 ,.°é😀]{0,120}",
+        1 => "[a-z ]{35,45}[°😀é][a-z]{0,10}",
+        1 => Just(String::new()),
+    ]
+}
+
+#[derive(Clone, Debug, serde::Serialize, serde::Deserialize)]
+pub struct DocSchema {
+    pub simple: Vec<(Vec<String>, Vec<String>)>,      // (doc lines, enumeration values)
+    pub complex: Vec<(Vec<String>, usize, bool)>,     // (doc lines, fields, has attribute)
+    pub wsdl: bool,
+}
+
+fn arb_doc_schema() -> impl Strategy<Value = DocSchema> {
+    (
+        proptest::collection::vec((proptest::collection::vec(arb_line(), 0..4), proptest::collection::vec("[a-zé°😀0-9]{1,50}", 0..4)), 1..4),
+        proptest::collection::vec((proptest::collection::vec(arb_line(), 0..4), 0usize..4, any::<bool>()), 1..4),
+        any::<bool>(),
+    )
+        .prop_map(|(simple, complex, wsdl)| DocSchema { simple, complex, wsdl })
+}
+
+fn esc(s: &str) -> String {
+    s.replace('&', "&amp;").replace('<', "&lt;").replace('"', "&quot;")
+}
+
+pub fn render_doc_schema(d: &DocSchema) -> FileSet {
+    let ns = "http://example.org/docs";
+    let mut body = String::new();
+    let doc = |lines: &Vec<String>| {
+        if lines.is_empty() {
+            String::new()
+        } else {
+            format!("<xs:annotation><xs:documentation>{}</xs:documentation></xs:annotation>", esc(&lines.join("\n")))
+        }
+    };
+    for (i, (lines, en)) in d.simple.iter().enumerate() {
+        body += &format!("<xs:simpleType name=\"Simple{i}\">{}<xs:restriction base=\"xs:string\">", doc(lines));
+        for e in en {
+            body += &format!("<xs:enumeration value=\"{}\"/>", esc(e));
+        }
+        body += "<xs:maxLength value=\"60\"/></xs:restriction></xs:simpleType>\n";
+    }
+    for (i, (lines, nf, attr)) in d.complex.iter().enumerate() {
+        body += &format!("<xs:complexType name=\"Complex{i}\">{}<xs:sequence>", doc(lines));
+        for f in 0..*nf {
+            body += &format!("<xs:element name=\"field{f}\" type=\"tns:Simple{}\" minOccurs=\"0\"/>", f % d.simple.len());
+        }
+        body += "</xs:sequence>";
+        if *attr {
+            body += "<xs:attribute name=\"id\" type=\"xs:int\"/>";
+        }
+        body += "</xs:complexType>\n";
+    }
+    if !d.wsdl {
+        let xsd = format!("<?xml version=\"1.0\" encoding=\"UTF-8\"?>\n<xs:schema xmlns:xs=\"http://www.w3.org/2001/XMLSchema\" xmlns:tns=\"{ns}\" targetNamespace=\"{ns}\" elementFormDefault=\"qualified\">\n{body}</xs:schema>\n");
+        return FileSet::single("docs.xsd", &xsd);
+    }
+    let wsdl = format!(
+        "<?xml version=\"1.0\" encoding=\"UTF-8\"?>\n<wsdl:definitions xmlns:wsdl=\"http://schemas.xmlsoap.org/wsdl/\" xmlns:soap=\"http://schemas.xmlsoap.org/wsdl/soap/\" xmlns:xs=\"http://www.w3.org/2001/XMLSchema\" xmlns:tns=\"{ns}\" targetNamespace=\"{ns}\">\n<wsdl:types><xs:schema targetNamespace=\"{ns}\" elementFormDefault=\"qualified\">\n{body}<xs:element name=\"Req\" type=\"tns:Complex0\"/><xs:element name=\"Res\" type=\"tns:Complex0\"/><xs:element name=\"Hdr\" type=\"tns:Complex0\"/></xs:schema></wsdl:types>\n<wsdl:message name=\"In\"><wsdl:part name=\"body\" element=\"tns:Req\"/><wsdl:part name=\"hdr\" element=\"tns:Hdr\"/></wsdl:message><wsdl:message name=\"Out\"><wsdl:part name=\"body\" element=\"tns:Res\"/></wsdl:message>\n<wsdl:portType name=\"P\"><wsdl:operation name=\"Call\"><wsdl:input message=\"tns:In\"/><wsdl:output message=\"tns:Out\"/></wsdl:operation></wsdl:portType>\n<wsdl:binding name=\"B\" type=\"tns:P\"><soap:binding style=\"document\" transport=\"http://schemas.xmlsoap.org/soap/http\"/><wsdl:operation name=\"Call\"><soap:operation soapAction=\"http://example.org/docs/Call\"/><wsdl:input><soap:header message=\"tns:In\" part=\"hdr\" use=\"literal\"/><soap:body use=\"literal\" parts=\"body\"/></wsdl:input><wsdl:output><soap:body use=\"literal\"/></wsdl:output></wsdl:operation></wsdl:binding>\n<wsdl:service name=\"DocService\"><wsdl:port name=\"P\" binding=\"tns:B\"><soap:address location=\"http://localhost:1/docs\"/></wsdl:port></wsdl:service>\n</wsdl:definitions>\n"
+    );
+    FileSet::single("docs.wsdl", &wsdl)
+}
+
+fn generated_corpus(n: usize) -> Vec<(String, FileSet)> {
+    let mut runner = crate::common::runner("C15-corpus");
+    let strat = arb_doc_schema();
+    (0..n)
+        .map(|i| {
+            let d = strat.new_tree(&mut runner).unwrap().current();
+            (format!("generated/doc{i}"), render_doc_schema(&d))
+        })
+        .collect()
+}
+
+pub fn corpus_for(tier: Tier) -> Vec<(String, FileSet)> {
     let mut c = mini_corpus();
+    c.extend(generated_corpus(tier.pick(40, 400)));
     c.extend(zeep::repo_corpus());
     c
+}
+
+pub fn corpus() -> Vec<(String, FileSet)> {
+    // replay looks documents up by label; the thorough corpus is a superset of the quick one
+    corpus_for(Tier::Thorough)
 }
 
 fn run_one(doc: &zeep::Doc, case: &FaultCase, reference: &[u8]) -> Option<(String, String)> {
@@ -199,11 +286,11 @@ pub fn run(tier: Tier) -> i32 {
         "C15",
         tier,
         "fault_enumeration",
-        "documents = every schema/WSDL of the repository that reads successfully + hand-written sets hitting every emitter (doc comments, simple/complex/alias, envelopes with header, action fn, service). For each: N = write calls of an unconstrained run; a fault is injected at call k for every k in 0..N (quick: all k when N <= 20000, else first/last 300 and every 37th) in two modes (only at k / from k on) with the error kind rotated over {Other, BrokenPipe, Ok(0), PermissionDenied, StorageFull} (all five kinds for the first and last 40 calls); Interrupted-once at k; short-writing sinks with proptest-chosen chunk patterns. Non-trivial: a fault at k >= 1 (after some output was accepted); distinct by (document, k, mode, kind).",
+        "documents = every schema/WSDL of the repository that reads successfully + hand-written sets hitting every emitter (doc comments, simple/complex/alias, envelopes with header, action fn, service) + proptest-generated schemas/WSDLs whose documentation lines and enumeration values have varied lengths and multi-byte characters at arbitrary offsets. For each: N = write calls of an unconstrained run; a fault is injected at call k for every k in 0..N (quick: all k when N <= 20000, else first/last 300 and every 37th) in two modes (only at k / from k on) with the error kind rotated over {Other, BrokenPipe, Ok(0), PermissionDenied, StorageFull} (all five kinds for the first and last 40 calls); Interrupted-once at k; short-writing sinks with proptest-chosen chunk patterns. Non-trivial: a fault at k >= 1 (after some output was accepted); distinct by (document, k, mode, kind).",
     );
     ev.assume("an error counts as an I/O error if an io::Error is in its source chain or its text carries the injected message");
 
-    let corpus = corpus();
+    let corpus = corpus_for(tier);
     let mut all_failures: Vec<(String, String, FaultCase)> = vec![];
     let mut exhaustive_docs = 0u64;
     let mut total_docs = 0u64;
